@@ -89,7 +89,10 @@ def replay(hist, px, py, B, rows_choice):
 
 
 def v5(t):
-    return int(round(float(t) * 100000))
+    v = float(t)
+    if v != v:
+        return -777777
+    return int(round(max(-3.0, min(3.0, v)) * 100000))      # clamped: anything outside [0, 1] is rejected by the spec without overflowing it
 
 
 def rand_batch(rng, B, force=None):
